@@ -59,8 +59,15 @@ func init() {
 		return nil
 	}
 	Gens["C12"] = func(tier string, seed uint64, run int) *Scenario {
+		// the proof-level exchanges (check_c12b.go) come first: they are cheap and complete per system
+		if np := proofTamperRuns(tier); run < np {
+			return genProofTamper(tier, seed, run)
+		} else {
+			run -= np
+		}
 		sc := cellScenario("C12", tier, seed, run)
 		if sc != nil {
+			sc.Run += proofTamperRuns(tier)
 			sc.P["must_reject"] = true
 		}
 		return sc
@@ -163,9 +170,11 @@ type Cell struct {
 	Spec TamperSpec
 }
 
-var c05Kinds = []string{"+1", "rand", "other", "empty"}
+// "+q": the same residue modulo the group order in a non-canonical representation (a deviating party may
+// send it; the honest parties must still reject or produce canonical, valid output)
+var c05Kinds = []string{"+1", "rand", "other", "empty", "+q"}
 var c06Kinds = []string{"zero", "empty", "one", "q-1", "q", "q+1", "2q", "N-1", "N", "N+1", "N2", "2^256", "2^2048", "2^63", "2^64-1", "huge", "flip-low", "flip-high", "lead-zero", "p", "p+x", "neg"}
-var c12Kinds = []string{"+1", "-1", "rand", "swap", "zero"}
+var c12Kinds = []string{"+1", "-1", "rand", "swap", "zero", "neg", "neg-p"}
 
 // indexPlan chooses which elements of a list get which kinds.
 func indexPlan(n int, tier string, kinds []string, fullKind string) map[int][]string {
@@ -393,6 +402,11 @@ func shiftCells(cells []Cell) []Cell {
 	var out []Cell
 	for _, c := range cells {
 		if strings.HasPrefix(c.Spec.Kind, "shift:") {
+			out = append(out, c)
+		}
+		// a non-canonical representative of the right residue in a value nothing checks before the output is
+		// assembled (signature shares): the few such cells are part of every quick run as well
+		if _, nc := notCovered[c.Spec.Type+"."+c.Spec.Field]; nc && c.Spec.Kind == "+q" && strings.Contains(c.Spec.Type, "signing") {
 			out = append(out, c)
 		}
 	}
